@@ -80,7 +80,10 @@ def run(ctx):
             pr = rnd.choice([x for x in (0, 0, 1, 2, 3, 5, 8, 50, 99, 100, 101) if (p, x) not in used])      # 0 and the class default 100 included
             used.add((p, pr))
             gs.append({"path": p, "prio": pr, "out": rnd.choice(outs), "reload": rnd.choice(["", "reload %d" % gi, "systemctl restart x"]),
-                       "safe": rnd.random() < 0.6, "name": "G%d" % gi, "supports": rnd.random() >= 0.15,
+                       "safe": rnd.random() < 0.6, "supports": rnd.random() >= 0.15,
+                       # generator classes need not have distinct names (a site generator overriding a stock one of the same name, one
+                       # class instantiated per file): results are keyed by path and decided by priority
+                       "name": rnd.choice(["G%d" % gi, "G%d" % gi, "Motd", "Motd"]),
                        "how": rnd.choice(["class", "class", "instance"]) + rnd.choice(["", "+raise"])})
         old = {p: rnd.choice(olds) for p in paths + ["/etc/other"]}
         old = {p: c for p, c in old.items() if c is not None}
